@@ -167,8 +167,9 @@ def h_tally(ctx, case):
     stub = NNStub(ctx, nr)
     patch(el.distance_utils, 'correlation_nearest_neighbors', stub)
     if ctx.mode == 'sym':
-        from symx.npshim import RngModel
+        from symx.npshim import RngModel, RANGE_CHECK
         rng = RngModel(tag='rng0')
+        RANGE_CHECK['on'] = True      # no wrap-around of the vote counter
     else:
         rng = ListRng(ctx)
     try:
@@ -186,14 +187,15 @@ def h_tally(ctx, case):
         # size == max(1, round_half_even(f*n_markers))
         fn = f * nm
         if ctx.mode == 'sym':
-            ctx.check(Or(And(n == 1, fn <= 1.5),
-                         And(fn - 0.5 <= n, n <= fn + 0.5)),
-                      'subset size == max(1, round(factor*n))')
-            ctx.check(Implies(And(fn - n == 0.5), n % 2 == 0) if n > 1
-                      else True, 'half-way cases round to even')
+            # n == max(1, round_half_even(f*n_markers))
+            inside = And(fn > n - 0.5, fn < n + 0.5)
+            half = Or(ctx.eq(fn, n - 0.5), ctx.eq(fn, n + 0.5))
+            ctx.check(Or(inside, And(half, n % 2 == 0),
+                         And(n == 1, fn <= 0.5)),
+                      'subset size == max(1, round-half-even(factor*n))')
         else:
             ctx.check(n == max(1, int(np.round(fn))),
-                      'subset size == max(1, round(factor*n))')
+                      'subset size == max(1, round-half-even(factor*n))')
         cols = sorted(S)
         ok = B.shape == (nr, n) and Qs.shape == (nq, n)
         if ok:
@@ -369,12 +371,16 @@ HARNESSES = [
             cases=[{'markers': m, 'cells': c, 'refs': r, 'iterations': it}
                    for (m, c, r, it) in
                    [(1, 1, 2, 2), (2, 1, 2, 2), (3, 1, 2, 2), (3, 2, 3, 1),
-                    (4, 1, 2, 1)]],
+                    (4, 1, 2, 1), (1, 1, 1, 255), (1, 1, 1, 256),
+                    (1, 1, 1, 300)]],
             thorough_cases=[{'markers': m, 'cells': c, 'refs': r,
                              'iterations': it}
                             for (m, c, r, it) in
                             [(1, 1, 2, 3), (2, 2, 3, 2), (3, 1, 3, 3),
-                             (4, 1, 2, 2), (5, 1, 2, 1), (4, 2, 3, 2)]],
+                             (4, 1, 2, 2), (5, 1, 2, 1), (4, 2, 3, 2),
+                             (1, 1, 1, 255), (1, 1, 1, 256), (1, 1, 1, 257),
+                             (2, 1, 1, 300), (1, 1, 1, 65535),
+                             (1, 1, 1, 65536)]],
             funcs=['election.tally_votes'],
             stubs=['rng.choice(replace=False) -> symbolic duplicate-free '
                    'ordered sample (numpy contract)',
@@ -382,10 +388,11 @@ HARNESSES = [
                    'arbitrary neighbour index and correlation in [-1,1]; '
                    'records its arguments'],
             bounds='markers<=4 (5), cells<=2, reference rows<=3, '
-                   'iterations<=2 (3), bootstrap factor symbolic real in '
+                   'iterations<=2 (3) plus 255/256/300 (thorough 257, 65535, 65536) with one marker and one reference row (vote counter must not wrap), bootstrap factor symbolic real in '
                    '(0,1], every drawn subset',
-            outside='vote dtype wrap-around (see choose_int_dtype harness '
-                    'of C16); torch path',
+            outside='torch path; iteration counts other than the listed '
+                    'ones around the uint8/uint16 boundaries for the '
+                    'no-wrap-around obligation',
             expect_reach=['returned'], selftest=20, split=32),
     Harness('correlation_kernel', h_corr, setup=setup_corr,
             cases=[{'cells': 1, 'refs': 2, 'genes': 2},
